@@ -2,27 +2,25 @@ import GluonModel.Infix
 namespace GluonModel.Infix.Proofs
 open GluonModel.Infix
 
-theorem reparse_sound (first : Nat) (rest : List (Op × Nat)) (t : Tree)
-    (h : reparse first rest = .ok t) : flatten t = (first, rest) ∧ WF t := by
-  sorry
+/-! ### `action` versus `okLeft` / `okRight` -/
 
-theorem reparse_complete (t : Tree) (h : WF t) :
-    reparse (flatten t).1 (flatten t).2 = .ok t := by
-  sorry
+theorem action_shift_iff (n s : OpMeta) : action n s = .shift ↔ okRight s n := by
+  rcases n with ⟨np, nf⟩
+  rcases s with ⟨sp, sf⟩
+  unfold action okRight
+  cases nf <;> cases sf <;> simp <;> (repeat' split) <;> simp <;> omega
 
-theorem reparse_never_internal (first : Nat) (rest : List (Op × Nat)) :
-    reparse first rest ≠ .error .internal := by
-  sorry
+theorem action_reduce_iff (n s : OpMeta) : action n s = .reduce ↔ okLeft n s := by
+  rcases n with ⟨np, nf⟩
+  rcases s with ⟨sp, sf⟩
+  unfold action okLeft
+  cases nf <;> cases sf <;> simp <;> (repeat' split) <;> simp <;> omega
 
-theorem reparse_conflict_iff (first : Nat) (rest : List (Op × Nat))
-    (hd : ∀ p ∈ rest, p.1.info ≠ none) :
-    (∃ s n, reparse first rest = .error (.conflict s n)) ↔
-      ¬ ∃ t, flatten t = (first, rest) ∧ WF t := by
-  sorry
-
-theorem conflict_is_conflict (first : Nat) (rest : List (Op × Nat)) (s n : Op)
-    (h : reparse first rest = .error (.conflict s n)) :
-    ∃ sm nm, s.info = some sm ∧ n.info = some nm ∧ sm.prec = nm.prec ∧ sm.fix ≠ nm.fix := by
-  sorry
+theorem action_conflict (n s : OpMeta) (h : action n s = .conflict) :
+    s.prec = n.prec ∧ s.fix ≠ n.fix := by
+  rcases n with ⟨np, nf⟩
+  rcases s with ⟨sp, sf⟩
+  unfold action at h
+  cases nf <;> cases sf <;> simp at h <;> (repeat' split at h) <;> simp at h <;> simp <;> omega
 
 end GluonModel.Infix.Proofs
